@@ -128,7 +128,8 @@ Definition class_of (c : cfg) (parent : str) (o : other) (name : str) : str :=
   let s := match parent with [] => basis | _ => pascal_case parent ++ pascal_case basis end in
   class_name (last_seg s []) (field_prefix c).
 
-(* ---- _property_from_ref: the existing property renamed; the wrapper's default goes through existing.convert_value ---- *)
+(* ---- _property_from_ref: the existing property renamed; evolve(existing, default=existing.convert_value(parent.default)): the
+   default comes from the REFERRING schema only (none for a bare $ref); the referenced schema's own default is dropped ---- *)
 Definition enum_default_ok (lit : bool) (cls : str) (vt : vtype) (vals : list evalue) (d : jval) : bool :=
   if lit then match conv_litenum vt vals d with Ok _ => true | _ => false end
   else match values_from_list vals with
@@ -148,6 +149,13 @@ Definition from_ref (t : tree) (name : str) (d : option jval) : tree :=
   | TLeaf LFile _ _, Some _ => TErr
   | TLeaf LNone _ _, Some v => if jval_eqb v (JStr s_None) then TLeaf LNone name d else TErr
   | TLeaf k _ _, _ => TLeaf k name d
+  end.
+
+(* the default a built property carries (lists and models never carry one) *)
+Definition tree_default (t : tree) : option jval :=
+  match t with
+  | TLeaf _ _ d | TEnum _ _ _ _ _ d | TUnion _ _ d => d
+  | TErr | TList _ _ | TModel _ _ => None
   end.
 
 Definition ref_build (e : env) (r : str) (name : str) (d : option jval) : tree :=
